@@ -205,6 +205,11 @@ static void dec_pollute(const char *method)
 	lha_decoder_free(d);
 }
 
+static size_t dec_nest_cb(void *buf, size_t len, void *u)
+{
+	return lha_decoder_read((LHADecoder *) u, (uint8_t *) buf, len);
+}
+
 /* decode 'in' with declared length = elen and require exactly 'exp'.  Returns 1 when equal. */
 static int dec_expect(const char *site, const char *method, const uint8_t *in, size_t n,
                       const uint8_t *exp, size_t elen, int chunk)
@@ -259,6 +264,28 @@ static int dec_expect(const char *site, const char *method, const uint8_t *in, s
 		gt = dec_run(method, ext, n + 4, elen, out, 0, 0, &rt);
 		if (gt != elen || memcmp(out, exp, elen))
 			vf_viol("decoder-trailing-bytes", "method=%s in=%s: output differs when four %s bytes follow the stream (%zu of %zu bytes)", method, vf_hex(in, n), (VF.index % 10) == 0 ? "0xFF" : "0x00", gt, elen);
+	}
+	/* decoders chained: the stream reaches the decoder under test through another decoder OF THE SAME METHOD (a literal-only
+	 * stream that holds the stream's bytes), whose read function is called from inside the input callback with the caller's
+	 * buffer: nothing in a decoder's code may be shared between two decoders, however their calls nest */
+	if ((VF.index % 7) == 3 && n > 0 && n <= 4000 && elen > 0) {
+		static uint8_t inner_stream[40000];
+		size_t il = literal_stream(method, in, n, inner_stream, sizeof inner_stream);
+		LHADecoderType *dt = lha_decoder_for_name((char *) method);
+		if (il && dt) {
+			LHADecoder *inner, *outer;
+			size_t tot = 0, g;
+			VIN2.p = inner_stream; VIN2.n = il; VIN2.pos = 0;
+			inner = lha_decoder_new(dt, vin2_cb, &VIN2, n);
+			outer = inner ? lha_decoder_new(dt, dec_nest_cb, inner, elen) : NULL;
+			if (outer) {
+				while (tot <= elen && (g = lha_decoder_read(outer, out + tot, elen + 1 - tot)) > 0) tot += g;
+				if (tot != elen || memcmp(out, exp, elen))
+					vf_viol("decoder-chained", "method=%s in=%s: output differs when the input comes through another decoder of the same method called from the input callback (%zu of %zu bytes)", method, vf_hex(in, n), tot, elen);
+				lha_decoder_free(outer);
+			}
+			if (inner) lha_decoder_free(inner);
+		}
 	}
 	/* a caller that probes with zero-length requests (before the first byte and between its reads of 1, 7 and 61 bytes) */
 	if ((VF.index & 3) == 3 && elen > 0) {
